@@ -151,6 +151,12 @@ func routerSession1(r *rand.Rand, k routerKnobs, emit Emit) {
 		emit("REQ %s %s%s", hx(method), hx(path), h)
 		if k.repeat {
 			emit("REQ %s %s%s", hx(method), hx(path), h)
+			// the same request again, with another request served on the instance meanwhile
+			np := randomSmallPath(r)
+			if len(routes) > 0 && r.Intn(3) != 0 {
+				np = mutatePath(r, routes[r.Intn(len(routes))].instance(r))
+			}
+			emit("NREQ %s %s %s %s%s", hx(method), hx(path), hx(pick(r, reqMethods)), hx(np), h)
 		}
 		if k.treq {
 			emit("TREQ %s %s%s", hx(method), hx(path), h)
